@@ -314,7 +314,23 @@ func runC01(r *Run) {
 	scanners := []struct{ fn string }{{"(*App).next"}, {"(*App).nextCustom"}, {"(*App).methodExist"}, {"(*App).methodExistCustom"}}
 
 	r.rule("R4", "all scanners read treeStack[method][hash] and fall back to bucket 0 when the bucket is absent (E5)", func() {
+		// every function that looks a bucket up with `tree, ok := treeStack[m][hash]` is a scanner — the four
+		// named ones are the hand-confirmed minimum, others (e.g. the cursor re-base) are found by shape
+		all := map[string]bool{}
 		for _, s := range scanners {
+			all[s.fn] = true
+		}
+		r.P.AllFuncs("", func(f *ssa.Function) {
+			for _, in := range instrsWhereOne(f, func(in ssa.Instruction) bool { _, ok := in.(*ssa.Lookup); return ok }) {
+				lk := in.(*ssa.Lookup)
+				if lk.CommaOk && strings.HasPrefix(lk.X.Type().String(), "map[int][]*") && strings.HasSuffix(lk.X.Type().String(), ".Route") {
+					all[strings.Replace(short(f.String()), "fiber.", "", 1)] = true
+				}
+			}
+		})
+		r.atLeast("bucket scanners", len(all), 5)
+		for _, fn := range sortedKeys(all) {
+			s := struct{ fn string }{fn}
 			f := r.Fn("", s.fn)
 			var commaok *ssa.Lookup
 			var zero *ssa.Lookup
